@@ -295,19 +295,28 @@ pub fn exec(pool: &mut Pool, ev: &mut Value) {
                         None => {}
                     },
                     _ => {
-                        // consuming conversions; with keep=1 a clone is converted
-                        let srcobj = if keep {
-                            pool.objs[&src].clone_obj()
+                        // consuming conversions; with keep=1 a clone is converted.  The bytes the
+                        // result keeps alive are measured through the live-byte counter: the source's
+                        // bytes are either moved into the result or freed by the conversion.
+                        let l0 = live_bytes();
+                        let (srcobj, src_total) = if keep {
+                            let c = pool.objs[&src].clone_obj();
+                            let t = live_bytes() - l0;
+                            (c, Some(t))
                         } else {
-                            pool.objs.remove(&src)
+                            let t = pool.heap.get(&src).map(|(h, _)| *h + pool.objs[&src].self_size() as i64);
+                            pool.heap.remove(&src);
+                            (pool.objs.remove(&src), t)
                         };
                         if let Some(s) = srcobj {
-                            let live0 = live_bytes();
-                            let ssz = s.self_size() as i64;
+                            let l1 = live_bytes();
                             match s.convert(&m) {
                                 Some(Ok(c)) => {
-                                    // heap of the converted object: the source's heap was already live
-                                    let _ = (live0, ssz);
+                                    let l2 = live_bytes();
+                                    if let Some(st) = src_total {
+                                        let heap = l2 - l1 + st - c.self_size() as i64;
+                                        pool.heap.insert(dst, (heap, m.clone()));
+                                    }
                                     pool.objs.insert(dst, c);
                                     ok = 0;
                                 }
